@@ -186,6 +186,9 @@ def run(ctx):
             ctx.violation(key, what, small)
         elif x["class"] == "refused-expressible":
             refused_expr.append(small)
+    if ctx.violations:
+        kc = collections.Counter(re.sub(r"@v\d", "@v*", v["key"]) for v in ctx.violations)
+        ctx.log("violation key classes: %s" % dict(kc))
     if refused_expr:
         ctx.add_drift("%d request(s) expressible in their version were refused by the builder, e.g. %s" % (
             len(refused_expr), json.dumps(refused_expr[0])[:600]))
